@@ -489,7 +489,7 @@ func progGen(c *ctx) {
 	}
 	if c.thorough() {
 		frames, nSynth, synthFrames = 300, 40, 12
-		nCode, codeFrames = 1000, 3
+		nCode, codeFrames = 400, 3
 	}
 	enc := func(p string) string { return strings.ReplaceAll(p, " ", "*") }
 	for _, r := range roms {
